@@ -86,3 +86,14 @@ Theorem c17_director_shape :
   Surface.director_passes_request_uri = true /\ Surface.director_installations = 1%nat.
 Proof. split; vm_compute; reflexivity. Qed.
 Print Assumptions c17_director_shape.
+
+(* ---- the comparator the theorems are about is the one in the source ---- *)
+From V.Gen Require Comparator.
+
+(* the comparator TRANSLATED on this run from the function literal sortByPathLongest hands to sort.Slice
+   (tagless switch over which of the two upstreams has a rewrite target; boolean constants and
+   comparisons of path lengths) computes the model's `less` on every pair of upstreams: c17_route and
+   c17_comparator speak about the code's ordering, not about a transcription of it *)
+Theorem c17_generated_comparator : forall a b, Comparator.gen_less a b = less a b.
+Proof. intros a b. unfold Comparator.gen_less, less. destruct (u_rewrite a), (u_rewrite b); reflexivity. Qed.
+Print Assumptions c17_generated_comparator.
